@@ -163,6 +163,18 @@ pub fn gen_pro(r: &mut Rng, thorough: bool, cx: &mut Ctx) {
         let mut l = vec![own as u64, ops.len() as u64]; for o in ops.iter() { push_list(&mut l, o); }
         cx.emit(&l);
     }
+    // a protocol object with a long life: hundreds of ticks and sends on one object (counters kept in the object)
+    for &n in (if thorough { &[300u64, 5000][..] } else { &[300u64][..] }) {
+        let own: u16 = r.u16b() as u16;
+        let mut ops: Vec<L> = vec![vec![0, 1, 0, 0], vec![0, 2, 1, 0]];
+        for i in 0..n {
+            let a = match i % 3 { 0 => own, 1 => 0xffff, _ => other_addr(r, own) };
+            let mut b: L = vec![2, 1]; let mut g: L = vec![0]; let p = small_packet(r, a); show_packet(&p, &mut g); push_list(&mut b, &g); ops.push(b);
+            let mut b: L = vec![3]; let p = small_packet(r, if i % 2 == 0 { own } else { other_addr(r, own) }); show_packet(&p, &mut b); ops.push(b);
+        }
+        let mut l = vec![own as u64, ops.len() as u64]; for o in ops.iter() { push_list(&mut l, o); }
+        cx.emit(&l);
+    }
     for _ in 0..(if thorough { 60000 } else { 4000 }) {
         let own: u16 = match r.below(6) { 0 => 0, 1 => 1, 2 => 0xfffe, 3 | 4 => 0xffff, _ => r.u16b() as u16 };
         let nops = r.range(1, 60);
